@@ -139,11 +139,20 @@ pub fn run(cfg: &Cfg, rep: &mut Report) {
     rep.assumptions.push("expected grouping comes from the loader automaton written from SPIR-V 1.6 §2.4 (harness/src/spec.rs, model.rs); excluded as the property states: OpLine/OpNoLine inside a function outside a block, more than one OpMemoryModel".into());
     let d = db();
     let n_ops = d.insts.len() as u64;
+    // boundary-value modules (counts, sizes, realistic imports ...)
+    run_stage(cfg, rep, "scale", cfg.n(crate::scale::N_VARIANTS * 12, crate::scale::N_VARIANTS * 400), |idx, rng, r| {
+        let (label, insts) = crate::scale::scale_module(rng, idx % crate::scale::N_VARIANTS);
+        let rp = || crate::util::replay_ref(cfg, "scale", idx).set("label", label.clone());
+        let mut junk_rng = Rng::new(rng.next());
+        if check_module(&insts, 0x0001_0600, 0, 1 << 22, if idx % 2 == 0 { Some(&mut junk_rng) } else { None }, false, r, &rp) == Some("ok") {
+            r.nontrivial(format!("scale:{}", label));
+        }
+    });
     let n = cfg.n(n_ops * 20, n_ops * 6000);
     run_stage(cfg, rep, "modules", n, |idx, rng, r| {
         let must = (idx % n_ops) as usize;
         let layout = idx % 3 != 2;
-        let mut gen = Gen::new(1000);
+        let mut gen = Gen::with_id_policy(rng);
         gen.lit = if rng.chance(1, 2) { LitStyle::Random } else { LitStyle::Marker };
         let o = ModOpts { max_functions: 3, max_blocks: 3, max_block_insts: 4, max_per_section: 3, layout_order: layout, must: vec![must, rng.below(d.insts.len())], memory_model: rng.chance(4, 5) };
         let sk = genmod::skeleton(rng, &o);
